@@ -16,6 +16,7 @@
 package main
 
 import (
+	"regexp"
 	"fmt"
 	"go/ast"
 	"go/parser"
@@ -34,6 +35,10 @@ type trUnit struct {
 	enums   []string            // named integer types whose constants are emitted
 	funcs   []string            // "recv.name" or "name"
 	vars    []string            // package-level variables with a constant initialiser, emitted as definitions
+	consts  []string            // package-level string constants, emitted as definitions
+	optPtr  []string            // struct types whose pointers are optional values (`*T` = Option T, `&T{…}` = some, nil = none)
+	panics  bool                // panic-aware translation: index and slice expressions are guarded, functions that can
+	                            // panic return `Outcome`
 	opaque  map[string]string   // method name -> field of Ext it stands for (a method the subset cannot express), applied to the method's name
 }
 
@@ -63,6 +68,15 @@ var trUnits = []trUnit{
 		structs: map[string][]string{"User": {"Name", "permissions"}},
 		vars:    []string{"permissionTypes"},
 		funcs:   []string{"splitPermission", "User.iteratePaths"}},
+	{ns: "MaprQuery", pkgDir: "internal/mapr", panics: true,
+		structs: map[string][]string{"token": nil, "selectCondition": nil, "whereCondition": nil, "setCondition": nil, "Outfile": nil, "Query": nil},
+		enums:   []string{"AggregateOperation", "QueryOperation", "fieldType"},
+		vars:    []string{"keywords"},
+		consts:  []string{"invalidQuery", "unexpectedEnd"},
+		optPtr:  []string{"Outfile", "Query"},
+		funcs: []string{"token.isKeyword", "tokenize", "tokensConsume", "tokensConsumeStr", "tokensConsumeOptional",
+			"makeSelectConditions", "whereCondition.fill", "makeWhereConditions", "initSetConditions", "makeSetConditions",
+			"Query.parseTokens", "Query.parse", "NewQuery"}},
 }
 
 type trErr struct{ msg string }
@@ -86,16 +100,22 @@ type trPkg struct {
 	structs map[string]*ast.StructType
 	named   map[string]ast.Expr // other named types -> underlying
 	sigs    map[string]*trSig
+	canPanic map[string]bool        // function key -> its translation returns Outcome (panic-aware units)
+	lits     map[string]*ast.FuncLit // lifted closures: "outer.name" -> literal
+	litOrder []string
 }
 
 type trSig struct {
 	recv     string // receiver type name ("" = function)
 	ptrRecv  bool
 	nResults int
+	ptrParam string // a plain function whose first parameter is a pointer to a translated struct: the parameter's name
+	// (the function returns the updated value in front of its results, like a pointer receiver)
 }
 
 func loadPkg(u trUnit) *trPkg {
-	p := &trPkg{unit: u, funcs: map[string]*ast.FuncDecl{}, structs: map[string]*ast.StructType{}, named: map[string]ast.Expr{}, sigs: map[string]*trSig{}}
+	p := &trPkg{unit: u, funcs: map[string]*ast.FuncDecl{}, structs: map[string]*ast.StructType{}, named: map[string]ast.Expr{}, sigs: map[string]*trSig{},
+		canPanic: map[string]bool{}, lits: map[string]*ast.FuncLit{}}
 	ents, err := os.ReadDir(filepath.Join(repo, u.pkgDir))
 	if err != nil {
 		trFail(nil, "cannot read %s: %v", u.pkgDir, err)
@@ -175,9 +195,16 @@ func (p *trPkg) leanType(e ast.Expr) string {
 		}
 		trFail(e, "type %s is not in the translated subset", t.Name)
 	case *ast.StarExpr:
+		if id, ok := t.X.(*ast.Ident); ok && contains(p.unit.optPtr, id.Name) {
+			return "(Option " + id.Name + ")"
+		}
 		return p.leanType(t.X)
 	case *ast.SelectorExpr:
 		switch src(t) {
+		case "time.Duration":
+			return "Int"
+		case "funcs.FunctionStack":
+			return "(List GoString)"
 		case "bytes.Buffer":
 			return "GoString"
 		case "regex.Regex":
@@ -188,6 +215,9 @@ func (p *trPkg) leanType(e ast.Expr) string {
 			return "GoRe"
 		}
 	case *ast.ArrayType:
+		if _, isEllipsis := t.Len.(*ast.Ellipsis); isEllipsis {
+			return "(List " + p.leanType(t.Elt) + ")"
+		}
 		if id, ok := t.Elt.(*ast.Ident); ok && t.Len == nil && (id.Name == "byte" || id.Name == "uint8") {
 			return "GoString"
 		}
@@ -218,6 +248,9 @@ func (p *trPkg) leanZero(e ast.Expr) string {
 		}
 	}
 	if st, ok := e.(*ast.StarExpr); ok {
+		if id, ok := st.X.(*ast.Ident); ok && contains(p.unit.optPtr, id.Name) {
+			return "(none : Option " + id.Name + ")"
+		}
 		return p.leanZero(st.X)
 	}
 	return "(GoZero.zero : " + p.leanType(e) + ")"
@@ -248,6 +281,7 @@ func (p *trPkg) emitStruct(sb *strings.Builder, name string) {
 		trFail(st, "struct %s lacks one of the fields %v", name, want)
 	}
 	fmt.Fprintf(sb, "  deriving Repr, DecidableEq\n\n")
+	fmt.Fprintf(sb, "instance : GoZero %s := ⟨{}⟩\n\n", name)
 }
 
 func contains(l []string, s string) bool {
@@ -333,6 +367,13 @@ type trFn struct {
 	loop    *trLoop
 	vtypes  map[string]string // Go variable -> struct type name (receiver and parameters)
 	regexVars map[string]bool // local variables assigned from regexp.Compile
+	panicky   bool              // the function returns Outcome
+	key       string            // function key
+	localFns  map[string]string // closure variable -> lifted function key
+	loops     int               // loop nesting depth (only 0 or 1 is in the subset)
+	inGuardedSwitch bool
+	resTypes  []ast.Expr        // declared result types
+	okValue   string            // the variable a matched call result is bound to (callStmt -> callBind)
 }
 
 type trLoop struct {
@@ -387,10 +428,15 @@ func (f *trFn) v(name string) string {
 
 type cont func(ind string) string
 
+var structLitRe = regexp.MustCompile(`^\(\{ .* \} : (?:[\w.]+\.)?(\w+)\)$`)
+
 func (f *trFn) retTuple(vals []string) string {
 	var parts []string
 	if f.sig.ptrRecv {
 		parts = append(parts, f.v(f.recv))
+	}
+	if f.sig.ptrParam != "" {
+		parts = append(parts, f.v(f.sig.ptrParam))
 	}
 	parts = append(parts, vals...)
 	if len(parts) == 0 {
@@ -418,10 +464,29 @@ func (f *trFn) loopState() string {
 
 func (f *trFn) emitReturn(ind string, vals []string) string {
 	t := f.retTuple(vals)
-	if f.loop != nil {
-		return ind + "LoopStep.ret " + t + "\n"
+	if f.panicky {
+		t = "(Outcome.ok " + t + ")"
 	}
-	return ind + t + "\n"
+	return ind + f.wrapRet(t) + "\n"
+}
+
+// wrapRet: a value the function returns, seen from inside the loops the statement stands in
+func (f *trFn) wrapRet(t string) string {
+	for i := 0; i < f.loops; i++ {
+		t = "(LoopStep.ret " + t + ")"
+	}
+	if f.loops > 0 {
+		t = strings.TrimSuffix(strings.TrimPrefix(t, "("), ")")
+	}
+	return t
+}
+
+// panicLine: what the function does where the Go runtime would panic
+func (f *trFn) panicLine(ind string, what string) string {
+	if !f.panicky {
+		trFail(nil, "%s: %s can panic but is translated as a total function", f.key, what)
+	}
+	return ind + f.wrapRet(fmt.Sprintf("(Outcome.panic %q)", what)) + "\n"
 }
 
 // stmts compiles a statement list followed by continuation k
@@ -431,17 +496,165 @@ func (f *trFn) stmts(ind string, l []ast.Stmt, k cont) string {
 	}
 	s, rest := l[0], l[1:]
 	next := func(ind string) string { return f.stmts(ind, rest, k) }
+	// a closure definition was lifted to a function of its own
+	if as, ok := s.(*ast.AssignStmt); ok && len(as.Rhs) == 1 {
+		if _, isLit := as.Rhs[0].(*ast.FuncLit); isLit {
+			if id, ok := as.Lhs[0].(*ast.Ident); ok && f.localFns[id.Name] != "" {
+				return next(ind)
+			}
+			trFail(s, "function literal outside the top level of a translated function")
+		}
+	}
+	return f.guarded(ind, f.stmtGuards(s), func(ind string) string { return f.stmt1(ind, s, next) })
+}
+
+// guarded: `if g1 && g2 … then <inner> else <panic>` (just <inner> when there is nothing to guard)
+func (f *trFn) guarded(ind string, gs []string, inner cont) string {
+	if len(gs) == 0 {
+		return inner(ind)
+	}
+	out := fmt.Sprintf("%sif %s then\n", ind, strings.Join(gs, " && "))
+	out += inner(ind + "  ")
+	out += ind + "else\n" + f.panicLine(ind+"  ", "index out of range")
+	return out
+}
+
+// guards: the conditions under which evaluating e does not panic (index and slice expressions), respecting the
+// short-circuit of && and ||
+func (f *trFn) guards(e ast.Expr) []string {
+	if !f.p.unit.panics || e == nil {
+		return nil
+	}
+	switch v := e.(type) {
+	case *ast.ParenExpr:
+		return f.guards(v.X)
+	case *ast.UnaryExpr:
+		return f.guards(v.X)
+	case *ast.StarExpr:
+		return f.guards(v.X)
+	case *ast.SelectorExpr:
+		return f.guards(v.X)
+	case *ast.KeyValueExpr:
+		return f.guards(v.Value)
+	case *ast.CompositeLit:
+		var out []string
+		for _, el := range v.Elts {
+			out = append(out, f.guards(el)...)
+		}
+		return out
+	case *ast.BinaryExpr:
+		out := f.guards(v.X)
+		for _, g := range f.guards(v.Y) {
+			switch v.Op {
+			case token.LAND:
+				g = fmt.Sprintf("(!%s || %s)", f.expr(v.X), g)
+			case token.LOR:
+				g = fmt.Sprintf("(%s || %s)", f.expr(v.X), g)
+			}
+			out = append(out, g)
+		}
+		return out
+	case *ast.IndexExpr:
+		out := append(f.guards(v.X), f.guards(v.Index)...)
+		return append(out, fmt.Sprintf("(goInRange %s %s)", f.expr(v.X), f.expr(v.Index)))
+	case *ast.SliceExpr:
+		out := append(f.guards(v.X), append(f.guards(v.Low), f.guards(v.High)...)...)
+		x := f.expr(v.X)
+		lo, hi := "0", "(GoLen.len "+x+")"
+		if v.Low != nil {
+			lo = f.expr(v.Low)
+		}
+		if v.High != nil {
+			hi = f.expr(v.High)
+		}
+		return append(out, fmt.Sprintf("(goSliceOk %s %s %s)", x, lo, hi))
+	case *ast.CallExpr:
+		var out []string
+		if sel, ok := v.Fun.(*ast.SelectorExpr); ok {
+			out = append(out, f.guards(sel.X)...)
+		}
+		for _, a := range v.Args {
+			out = append(out, f.guards(a)...)
+		}
+		return out
+	}
+	return nil
+}
+
+// stmtGuards: the guards of the expressions a statement evaluates itself (not those of nested blocks, conditions
+// and tags, which are guarded where they are evaluated)
+func (f *trFn) stmtGuards(s ast.Stmt) []string {
+	if !f.p.unit.panics {
+		return nil
+	}
+	var out []string
+	switch st := s.(type) {
+	case *ast.AssignStmt:
+		if len(st.Lhs) == 2 && len(st.Rhs) == 1 {
+			if ix, ok := st.Rhs[0].(*ast.IndexExpr); ok { // v, ok := m[k] never panics
+				return append(f.guards(ix.X), f.guards(ix.Index)...)
+			}
+		}
+		for _, r := range st.Rhs {
+			out = append(out, f.guards(r)...)
+		}
+		if st.Tok != token.DEFINE {
+			for _, l := range st.Lhs {
+				out = append(out, f.guards(l)...)
+			}
+		}
+	case *ast.ReturnStmt:
+		for _, r := range st.Results {
+			out = append(out, f.guards(r)...)
+		}
+	case *ast.ExprStmt:
+		if call, ok := st.X.(*ast.CallExpr); ok && isLogging(call) {
+			return nil
+		}
+		out = f.guards(st.X)
+	case *ast.IncDecStmt:
+		out = f.guards(st.X)
+	case *ast.DeclStmt:
+		if gd, ok := st.Decl.(*ast.GenDecl); ok {
+			for _, sp := range gd.Specs {
+				if vs, ok := sp.(*ast.ValueSpec); ok {
+					for _, v := range vs.Values {
+						out = append(out, f.guards(v)...)
+					}
+				}
+			}
+		}
+	case *ast.RangeStmt:
+		out = f.guards(st.X)
+	}
+	return out
+}
+
+// stmt1 compiles one statement followed by continuation next
+func (f *trFn) stmt1(ind string, s ast.Stmt, next cont) string {
 	switch st := s.(type) {
 	case *ast.EmptyStmt:
 		return next(ind)
 	case *ast.ReturnStmt:
+		if seq := f.returnWithCalls(st); seq != nil {
+			f.push()
+			out := f.stmts(ind, seq, func(ind string) string { trFail(st, "unreachable"); return "" })
+			f.pop()
+			return out
+		}
 		var vals []string
 		if len(st.Results) == 0 {
 			for _, n := range f.named {
 				vals = append(vals, f.v(n))
 			}
 		} else {
-			for _, r := range st.Results {
+			for i, r := range st.Results {
+				if id, ok := r.(*ast.Ident); ok && id.Name == "nil" && len(st.Results) == len(f.resTypes) {
+					if t, isId := f.resTypes[i].(*ast.Ident); !isId || t.Name != "error" {
+						vals = append(vals, f.p.leanZero(f.resTypes[i])) // nil slice, nil pointer
+						continue
+					}
+				}
 				vals = append(vals, f.expr(r))
 			}
 		}
@@ -497,6 +710,11 @@ func (f *trFn) stmts(ind string, l []ast.Stmt, k cont) string {
 				ty := ""
 				if vs.Type != nil {
 					ty = " : " + f.p.leanType(vs.Type)
+					if id, ok := vs.Type.(*ast.Ident); ok {
+						if _, isStruct := f.p.unit.structs[id.Name]; isStruct {
+							f.vtypes[n.Name] = id.Name
+						}
+					}
 				}
 				out += fmt.Sprintf("%slet %s%s := %s\n", ind, f.declare(n.Name), ty, val)
 			}
@@ -525,6 +743,44 @@ func randDraw(call *ast.CallExpr) *ast.Ident {
 	}
 	id, _ := sel.X.(*ast.Ident)
 	return id
+}
+
+// returnWithCalls: `return …, f(x), …` where f is a translated function that can panic or a method that updates its
+// receiver: the calls are bound to fresh variables first (an operand `&v` is read afterwards: it sees the update)
+func (f *trFn) returnWithCalls(st *ast.ReturnStmt) []ast.Stmt {
+	need := false
+	for _, r := range st.Results {
+		if call, ok := r.(*ast.CallExpr); ok {
+			if k := f.p.calleeKey(f.key, call); k != "" && (f.p.canPanic[k] || f.p.sigs[k].ptrRecv) {
+				need = true
+			}
+		}
+	}
+	if !need {
+		return nil
+	}
+	var seq []ast.Stmt
+	var results []ast.Expr
+	for _, r := range st.Results {
+		call, ok := r.(*ast.CallExpr)
+		k := ""
+		if ok {
+			k = f.p.calleeKey(f.key, call)
+		}
+		if k == "" || !(f.p.canPanic[k] || f.p.sigs[k].ptrRecv) {
+			results = append(results, r)
+			continue
+		}
+		var lhs []ast.Expr
+		for i := 0; i < f.p.sigs[k].nResults; i++ {
+			f.counter++
+			id := ast.NewIdent(fmt.Sprintf("ret_%d", f.counter))
+			lhs = append(lhs, id)
+			results = append(results, id)
+		}
+		seq = append(seq, &ast.AssignStmt{Lhs: lhs, Tok: token.DEFINE, Rhs: []ast.Expr{call}, TokPos: st.Pos()})
+	}
+	return append(seq, &ast.ReturnStmt{Results: results, Return: st.Pos()})
 }
 
 func isLogging(call *ast.CallExpr) bool {
@@ -583,6 +839,11 @@ func (f *trFn) assign(ind string, st *ast.AssignStmt, k cont) string {
 		if call, ok := st.Rhs[0].(*ast.CallExpr); ok && f.isTranslatedMethodCall(call) {
 			return f.callStmt(ind, st.Lhs, define, call, k)
 		}
+		if call, ok := st.Rhs[0].(*ast.CallExpr); ok && st.Tok != token.ADD_ASSIGN {
+			if key := f.p.calleeKey(f.key, call); key != "" && f.p.canPanic[key] {
+				return f.callStmt(ind, st.Lhs, define, call, k)
+			}
+		}
 		// x := r.Intn(n): the random source is a value; a draw returns the number and the rest of the source
 		if call, ok := st.Rhs[0].(*ast.CallExpr); ok && st.Tok != token.ADD_ASSIGN {
 			if recv := randDraw(call); recv != nil {
@@ -631,6 +892,9 @@ func (f *trFn) oneAssign(ind string, lhs ast.Expr, define bool, val string, k co
 		id, ok := lhs.(*ast.Ident)
 		if !ok {
 			trFail(lhs, ":= to a non-identifier")
+		}
+		if m := structLitRe.FindStringSubmatch(val); m != nil {
+			f.vtypes[id.Name] = m[1] // x := T{…}
 		}
 		return fmt.Sprintf("%slet %s := %s\n", ind, f.declare(id.Name), val) + k(ind)
 	}
@@ -754,8 +1018,53 @@ func (p *trPkg) pureMethod(key string) bool {
 	return pure
 }
 
-// callStmt: a call used as a statement or as the right-hand side of an assignment
+// callStmt: a call used as a statement or as the right-hand side of an assignment; a callee that can panic is
+// matched on: its panic is the caller's panic
 func (f *trFn) callStmt(ind string, lhs []ast.Expr, define bool, call *ast.CallExpr, k cont) string {
+	if key := f.p.calleeKey(f.key, call); key != "" && f.p.canPanic[key] {
+		if !f.panicky {
+			trFail(call, "%s calls %s, which can panic, but is translated as a total function", f.key, key)
+		}
+		f.counter++
+		v := fmt.Sprintf("_o%d", f.counter)
+		f.okValue = ""
+		text := f.callText(call)
+		out := fmt.Sprintf("%smatch %s with\n%s| Outcome.ok %s =>\n", ind, text, ind, v)
+		f.okValue = v
+		out += f.callBind(ind+"  ", lhs, define, call, k)
+		out += ind + "| _ =>\n" + f.panicLine(ind+"  ", "panic in "+key)
+		return out
+	}
+	return f.callBind(ind, lhs, define, call, k)
+}
+
+// callText: the Lean application for a call of a translated function or method
+func (f *trFn) callText(call *ast.CallExpr) string {
+	var args []string
+	for _, a := range call.Args {
+		args = append(args, f.expr(a))
+	}
+	if f.isTranslatedMethodCall(call) {
+		sel := call.Fun.(*ast.SelectorExpr)
+		sig := f.p.methodSig(sel.Sel.Name)
+		path, _ := f.recvPath(call, sel.X.(*ast.Ident).Name, sig)
+		return strings.TrimSpace(fmt.Sprintf("%s ext %s %s", f.p.methodKey(sel.Sel.Name), path, strings.Join(args, " ")))
+	}
+	key := f.p.calleeKey(f.key, call)
+	if key == "" {
+		trFail(call, "call of %s is not a translated function", src(call.Fun))
+	}
+	if f.p.sigs[key].ptrParam != "" {
+		if u, ok := call.Args[0].(*ast.UnaryExpr); ok && u.Op == token.AND {
+			args[0] = f.expr(u.X)
+		}
+	}
+	return strings.TrimSpace(fmt.Sprintf("%s ext %s", leanIdent(key), strings.Join(args, " ")))
+}
+
+func (f *trFn) callBind(ind string, lhs []ast.Expr, define bool, call *ast.CallExpr, k cont) string {
+	okv := f.okValue
+	f.okValue = ""
 	var args []string
 	if f.isTranslatedMethodCall(call) {
 		sel := call.Fun.(*ast.SelectorExpr)
@@ -766,6 +1075,9 @@ func (f *trFn) callStmt(ind string, lhs []ast.Expr, define bool, call *ast.CallE
 		}
 		path, emb := f.recvPath(call, base.Name, sig)
 		rhs := fmt.Sprintf("%s ext %s %s", f.p.methodKey(sel.Sel.Name), path, strings.Join(args, " "))
+		if okv != "" {
+			rhs = okv
+		}
 		setRecv := func(ind, val string) string {
 			if emb != "" {
 				return fmt.Sprintf("%slet %s := { %s with %s := %s }\n", ind, f.v(base.Name), f.v(base.Name), emb, val)
@@ -809,6 +1121,55 @@ func (f *trFn) callStmt(ind string, lhs []ast.Expr, define bool, call *ast.CallE
 		}
 		return f.bindTuple(ind, targets, define, strings.TrimSpace(rhs), k)
 	}
+	// a plain translated function that updates its first argument through a pointer
+	if key := f.p.calleeKey(f.key, call); key != "" && f.p.sigs[key].ptrParam != "" {
+		sig := f.p.sigs[key]
+		target, ok := call.Args[0].(*ast.UnaryExpr)
+		if !ok || target.Op != token.AND {
+			trFail(call, "call of %s: the first argument must be &variable", key)
+		}
+		rhs := okv
+		if rhs == "" {
+			rhs = f.callText(call)
+		}
+		f.counter++
+		tr := fmt.Sprintf("_r%d", f.counter)
+		targets := lhs
+		if len(lhs) == 0 {
+			for i := 0; i < sig.nResults; i++ {
+				targets = append(targets, ast.NewIdent("_"))
+			}
+			define = true
+		}
+		var tmps []string
+		for range targets {
+			f.counter++
+			tmps = append(tmps, fmt.Sprintf("_t%d", f.counter))
+		}
+		pat := tr
+		if len(tmps) > 0 {
+			pat = "(" + tr + ", " + strings.Join(tmps, ", ") + ")"
+		}
+		out := fmt.Sprintf("%slet %s := %s\n", ind, pat, rhs)
+		var chain func(i int) cont
+		chain = func(i int) cont {
+			if i == len(targets) {
+				return k
+			}
+			return func(ind string) string { return f.oneAssign(ind, targets[i], define, tmps[i], chain(i+1)) }
+		}
+		return out + f.assignTo(ind, target.X, tr, chain(0))
+	}
+	// a translated function whose result was matched on
+	if okv != "" {
+		if len(lhs) == 0 {
+			return k(ind)
+		}
+		if len(lhs) == 1 {
+			return f.oneAssign(ind, lhs[0], define, okv, k)
+		}
+		return f.bindTuple(ind, lhs, define, okv, k)
+	}
 	// external call with several results
 	if src(call.Fun) == "regexp.Compile" && len(lhs) >= 1 {
 		if id, ok := lhs[0].(*ast.Ident); ok {
@@ -831,7 +1192,11 @@ func (f *trFn) callStmt(ind string, lhs []ast.Expr, define bool, call *ast.CallE
 func (f *trFn) ifStmt(ind string, st *ast.IfStmt, k cont) string {
 	f.push()
 	defer f.pop()
+	var ifBody func(ind string) string
 	body := func(ind string) string {
+		return f.guarded(ind, f.guards(st.Cond), func(ind string) string { return ifBody(ind) })
+	}
+	ifBody = func(ind string) string {
 		cond := f.expr(st.Cond)
 		out := fmt.Sprintf("%sif %s then\n", ind, cond)
 		f.push()
@@ -872,6 +1237,13 @@ func (f *trFn) switchStmt(ind string, st *ast.SwitchStmt, k cont) string {
 	if st.Init != nil {
 		trFail(st, "switch with init statement")
 	}
+	if gs := f.guards(st.Tag); len(gs) > 0 && !f.inGuardedSwitch {
+		f.inGuardedSwitch = true
+		out := f.guarded(ind, gs, func(ind string) string { return f.switchStmt(ind, st, k) })
+		f.inGuardedSwitch = false
+		return out
+	}
+	f.inGuardedSwitch = false
 	tag := ""
 	if st.Tag != nil {
 		tag = f.expr(st.Tag)
@@ -913,21 +1285,24 @@ func (f *trFn) switchStmt(ind string, st *ast.SwitchStmt, k cont) string {
 			return out
 		}
 		cc := clauses[order[j]].(*ast.CaseClause)
-		var conds []string
+		var conds, gs []string
 		for _, e := range cc.List {
+			gs = append(gs, f.guards(e)...)
 			if tag != "" {
 				conds = append(conds, fmt.Sprintf("(%s == %s)", tag, f.expr(e)))
 			} else {
 				conds = append(conds, f.expr(e))
 			}
 		}
-		out := fmt.Sprintf("%sif %s then\n", ind, strings.Join(conds, " || "))
-		f.push()
-		out += f.stmts(ind+"  ", bodyOf(order[j]), func(ind string) string { return f.outside(1, func() string { return k(ind) }) })
-		f.pop()
-		out += ind + "else\n"
-		out += gen(j+1, ind+"  ")
-		return out
+		return f.guarded(ind, gs, func(ind string) string {
+			out := fmt.Sprintf("%sif %s then\n", ind, strings.Join(conds, " || "))
+			f.push()
+			out += f.stmts(ind+"  ", bodyOf(order[j]), func(ind string) string { return f.outside(1, func() string { return k(ind) }) })
+			f.pop()
+			out += ind + "else\n"
+			out += gen(j+1, ind+"  ")
+			return out
+		})
 	}
 	return gen(0, ind)
 }
@@ -985,9 +1360,6 @@ func (f *trFn) assignedOuter(body []ast.Stmt) []string {
 }
 
 func (f *trFn) rangeStmt(ind string, st *ast.RangeStmt, k cont) string {
-	if f.loop != nil {
-		trFail(st, "nested loops are not in the translated subset")
-	}
 	keyName := ""
 	if st.Key != nil {
 		id, ok := st.Key.(*ast.Ident)
@@ -1017,7 +1389,9 @@ func (f *trFn) rangeStmt(ind string, st *ast.RangeStmt, k cont) string {
 // loopOver: `goRange coll state (fun state x => body) (fun state => k)`
 func (f *trFn) loopOver(ind string, coll string, body []ast.Stmt, declare func() string, k cont) string {
 	state := f.assignedOuter(body)
+	saved := f.loop
 	f.loop = &trLoop{state: state}
+	f.loops++
 	stateTuple := f.loopState()
 	f.push()
 	x := declare()
@@ -1026,7 +1400,8 @@ func (f *trFn) loopOver(ind string, coll string, body []ast.Stmt, declare func()
 	out += f.stmts(ind+"    ", body, func(ind string) string { return ind + "LoopStep.next " + f.loopState() + "\n" })
 	out = strings.TrimRight(out, "\n") + ")\n"
 	f.pop()
-	f.loop = nil
+	f.loop = saved
+	f.loops--
 	out += fmt.Sprintf("%s  (fun %s =>\n", ind, stateTuple)
 	out += strings.TrimRight(k(ind+"    "), "\n") + ")\n"
 	return out
@@ -1034,9 +1409,41 @@ func (f *trFn) loopOver(ind string, coll string, body []ast.Stmt, declare func()
 
 // forStmt: the counting loop `for i := lo; i < hi; i++ { body }` where the body assigns neither i nor
 // a variable of hi: the same iterations as ranging over lo, lo+1, …, hi-1
+// whileStmt: `for cond { body }` runs on fuel (`ext.fuel` rounds); running out of it is reported as a panic of its
+// own kind, which the theorems about the translated function exclude
+func (f *trFn) whileStmt(ind string, st *ast.ForStmt, k cont) string {
+	if !f.panicky {
+		trFail(st, "a `for cond` loop in a function translated as total")
+	}
+	if st.Cond == nil {
+		trFail(st, "endless loops are not in the translated subset")
+	}
+	if len(f.guards(st.Cond)) > 0 {
+		trFail(st, "loop condition with an index expression")
+	}
+	state := f.assignedOuter(st.Body.List)
+	saved := f.loop
+	f.loop = &trLoop{state: state}
+	f.loops++
+	stateTuple := f.loopState()
+	out := fmt.Sprintf("%sgoWhile ext.fuel %s\n", ind, stateTuple)
+	out += fmt.Sprintf("%s  (fun %s => %s)\n", ind, stateTuple, f.expr(st.Cond))
+	out += fmt.Sprintf("%s  (fun %s =>\n", ind, stateTuple)
+	f.push()
+	out += f.stmts(ind+"    ", st.Body.List, func(ind string) string { return ind + "LoopStep.next " + f.loopState() + "\n" })
+	out = strings.TrimRight(out, "\n") + ")\n"
+	f.pop()
+	f.loop = saved
+	f.loops--
+	out += fmt.Sprintf("%s  (fun %s =>\n", ind, stateTuple)
+	out += strings.TrimRight(k(ind+"    "), "\n") + ")\n"
+	out += fmt.Sprintf("%s  %s\n", ind, f.wrapRet("(Outcome.panic \"out of fuel\")"))
+	return out
+}
+
 func (f *trFn) forStmt(ind string, st *ast.ForStmt, k cont) string {
-	if f.loop != nil {
-		trFail(st, "nested loops are not in the translated subset")
+	if st.Init == nil && st.Post == nil {
+		return f.whileStmt(ind, st, k)
 	}
 	init, ok1 := st.Init.(*ast.AssignStmt)
 	cond, ok2 := st.Cond.(*ast.BinaryExpr)
@@ -1154,9 +1561,31 @@ func (f *trFn) expr(e ast.Expr) string {
 		case token.SUB:
 			return "(-" + f.expr(v.X) + ")"
 		case token.AND:
+			// a pointer to a struct whose pointers are optional values
+			if cl, ok := v.X.(*ast.CompositeLit); ok {
+				if id, ok := cl.Type.(*ast.Ident); ok && contains(f.p.unit.optPtr, id.Name) {
+					return "(some " + f.expr(v.X) + ")"
+				}
+			}
+			if id, ok := v.X.(*ast.Ident); ok && contains(f.p.unit.optPtr, f.vtypes[id.Name]) {
+				return "(some " + f.expr(v.X) + ")"
+			}
 			return f.expr(v.X)
 		}
 	case *ast.BinaryExpr:
+		// `x == nil || len(x) < 1` (a slice): nil or empty, which is what the right operand alone says
+		if v.Op == token.LOR {
+			if l, ok := v.X.(*ast.BinaryExpr); ok && l.Op == token.EQL {
+				if id, ok := l.Y.(*ast.Ident); ok && id.Name == "nil" {
+					if r, ok := v.Y.(*ast.BinaryExpr); ok && (r.Op == token.LSS || r.Op == token.EQL) {
+						if call, ok := r.X.(*ast.CallExpr); ok && src(call.Fun) == "len" && len(call.Args) == 1 && src(call.Args[0]) == src(l.X) &&
+							((r.Op == token.LSS && src(r.Y) == "1") || (r.Op == token.EQL && src(r.Y) == "0")) {
+							return f.expr(v.Y)
+						}
+					}
+				}
+			}
+		}
 		if id, ok := v.Y.(*ast.Ident); ok && id.Name == "nil" && (v.Op == token.EQL || v.Op == token.NEQ) && f.isRegexpPtr(v.X) {
 			// a *regexp.Regexp is nil until it holds a compiled expression
 			if v.Op == token.NEQ {
@@ -1178,6 +1607,9 @@ func (f *trFn) expr(e ast.Expr) string {
 		}
 		return x
 	case *ast.SelectorExpr:
+		if src(v) == "time.Second" {
+			return "(1000000000 : Int)"
+		}
 		if id, ok := v.X.(*ast.Ident); ok {
 			if _, isVar := f.lookup(id.Name); !isVar {
 				trFail(v, "package-qualified name %s is not in the translated subset", src(v))
@@ -1198,14 +1630,14 @@ func (f *trFn) expr(e ast.Expr) string {
 					}
 					fields = append(fields, fmt.Sprintf("%s := %s", src(kv.Key), f.expr(kv.Value)))
 				}
-				return "({ " + strings.Join(fields, ", ") + " } : " + t.Name + ")"
+				return "({ " + strings.Join(fields, ", ") + " } : Dtail.Gen." + f.p.unit.ns + "." + t.Name + ")"
 			}
 		case *ast.StructType:
 			if (t.Fields == nil || len(t.Fields.List) == 0) && len(v.Elts) == 0 {
 				return "()"
 			}
 		case *ast.ArrayType:
-			if t.Len == nil {
+			if _, isEllipsis := t.Len.(*ast.Ellipsis); t.Len == nil || isEllipsis {
 				var els []string
 				for _, el := range v.Elts {
 					els = append(els, f.expr(el))
@@ -1234,7 +1666,17 @@ func (f *trFn) expr(e ast.Expr) string {
 			}
 			return "(" + call + ")"
 		}
+		if key := f.p.calleeKey(f.key, v); key != "" && f.p.canPanic[key] {
+			trFail(v, "call of %s, which can panic, inside an expression", key)
+		}
 		if id, ok := v.Fun.(*ast.Ident); ok {
+			if lk := f.localFns[id.Name]; lk != "" {
+				var args []string
+				for _, a := range v.Args {
+					args = append(args, f.expr(a))
+				}
+				return "(" + strings.TrimSpace(fmt.Sprintf("%s ext %s", leanIdent(lk), strings.Join(args, " "))) + ")"
+			}
 			if sig, ok := f.p.sigs[id.Name]; ok && sig.recv == "" {
 				var args []string
 				for _, a := range v.Args {
@@ -1261,6 +1703,12 @@ func (f *trFn) expr(e ast.Expr) string {
 				}
 			}
 			switch sel.Sel.Name {
+			case "Error":
+				if id, ok := sel.X.(*ast.Ident); ok && len(v.Args) == 0 {
+					if _, isVar := f.lookup(id.Name); isVar {
+						return "(Option.getD " + f.expr(sel.X) + " [])"
+					}
+				}
 			case "Bytes", "String":
 				if len(v.Args) == 0 {
 					if id, ok := sel.X.(*ast.Ident); ok {
@@ -1315,6 +1763,25 @@ func (f *trFn) expr(e ast.Expr) string {
 				trFail(v, "strings.SplitN with a limit other than 2")
 			}
 			return "(splitN " + f.oneByteLit(v.Args[1]) + " 2 " + f.expr(v.Args[0]) + ")"
+		case "strings.ToLower":
+			return "(lowerKey " + f.expr(v.Args[0]) + ")"
+		case "strings.ToUpper":
+			return "(upperAscii " + f.expr(v.Args[0]) + ")"
+		case "strings.EqualFold":
+			return "(equalFoldAscii " + f.expr(v.Args[0]) + " " + f.expr(v.Args[1]) + ")"
+		case "strings.Fields":
+			return "(fields " + f.expr(v.Args[0]) + ")"
+		case "strings.Replace":
+			if n := eval(v.Args[3], nil); n == nil || n.ExactString() != "-1" {
+				trFail(v, "strings.Replace with a count other than -1")
+			}
+			return fmt.Sprintf("(List.map (fun b => if b == %s then %s else b) %s)", f.oneByteLit(v.Args[1]), f.oneByteLit(v.Args[2]), f.expr(v.Args[0]))
+		case "strings.HasSuffix":
+			return "(hasSuffix " + f.expr(v.Args[1]) + " " + f.expr(v.Args[0]) + ")"
+		case "time.Duration":
+			return "(goConv " + f.expr(v.Args[0]) + ")"
+		case "funcs.NewFunctionStack":
+			return "(ext.newFunctionStack " + f.expr(v.Args[0]) + ")"
 		case "strings.HasPrefix":
 			return "(hasPrefix " + f.expr(v.Args[1]) + " " + f.expr(v.Args[0]) + ")"
 		case "strings.Contains":
@@ -1347,6 +1814,9 @@ func (f *trFn) expr(e ast.Expr) string {
 			// an error is its presence and its (format) text; the formatted arguments are not modelled
 			c := eval(v.Args[0], nil)
 			if c == nil {
+				if fn == "errors.New" {
+					return "(some " + f.expr(v.Args[0]) + ")"
+				}
 				trFail(v, "error text is not a constant")
 			}
 			text, _ := constStr(c)
@@ -1434,21 +1904,32 @@ func (f *trFn) sprintf(v *ast.CallExpr) string {
 // ---------------------------------------------------------------- driver
 
 func (p *trPkg) emitFunc(sb *strings.Builder, key string) {
-	d, ok := p.funcs[key]
-	if !ok {
-		trFail(nil, "function %s not found in %s", key, p.unit.pkgDir)
+	var ftype *ast.FuncType
+	var body *ast.BlockStmt
+	var recvField *ast.Field
+	var at ast.Node
+	if lit, ok := p.lits[key]; ok {
+		ftype, body, at = lit.Type, lit.Body, lit
+	} else {
+		d, ok := p.funcs[key]
+		if !ok {
+			trFail(nil, "function %s not found in %s", key, p.unit.pkgDir)
+		}
+		ftype, body, at = d.Type, d.Body, d
+		if d.Recv != nil {
+			recvField = d.Recv.List[0]
+		}
 	}
 	sig := p.sigs[key]
-	f := &trFn{p: p, decl: d, sig: sig, vtypes: map[string]string{}}
+	f := &trFn{p: p, sig: sig, vtypes: map[string]string{}, key: key, panicky: p.canPanic[key], localFns: map[string]string{}}
 	f.push()
 	params := "(ext : Ext)"
-	if d.Recv != nil {
-		r := d.Recv.List[0]
-		f.recv = r.Names[0].Name
+	if recvField != nil {
+		f.recv = recvField.Names[0].Name
 		params += fmt.Sprintf(" (%s : %s)", f.declare(f.recv), sig.recv)
 		f.vtypes[f.recv] = sig.recv
 	}
-	for _, fl := range d.Type.Params.List {
+	for _, fl := range ftype.Params.List {
 		for _, n := range fl.Names {
 			params += fmt.Sprintf(" (%s : %s)", f.declare(n.Name), p.leanType(fl.Type))
 			f.vtypes[n.Name] = recvTypeName(fl.Type)
@@ -1458,9 +1939,19 @@ func (p *trPkg) emitFunc(sb *strings.Builder, key string) {
 	if sig.ptrRecv {
 		rtypes = append(rtypes, sig.recv)
 	}
+	if sig.ptrParam != "" {
+		rtypes = append(rtypes, recvTypeName(ftype.Params.List[0].Type))
+	}
 	pre := ""
-	if d.Type.Results != nil {
-		for _, fl := range d.Type.Results.List {
+	if ftype.Results != nil {
+		for _, fl := range ftype.Results.List {
+			n := len(fl.Names)
+			if n == 0 {
+				n = 1
+			}
+			for i := 0; i < n; i++ {
+				f.resTypes = append(f.resTypes, fl.Type)
+			}
 			if len(fl.Names) == 0 {
 				rtypes = append(rtypes, p.leanType(fl.Type))
 			}
@@ -1475,20 +1966,146 @@ func (p *trPkg) emitFunc(sb *strings.Builder, key string) {
 	if len(rtypes) > 0 {
 		rt = strings.Join(rtypes, " × ")
 	}
-	fmt.Fprintf(sb, "/-- %s %s (%s) -/\n", filepath.Join(p.unit.pkgDir, filepath.Base(fset.Position(d.Pos()).Filename)), key, "translated")
+	if f.panicky {
+		rt = "Outcome (" + rt + ")"
+	}
+	// closures defined by `name := func(…) {…}` at the top level of the body were lifted to functions of their own
+	for _, st := range body.List {
+		if as, ok := st.(*ast.AssignStmt); ok && as.Tok == token.DEFINE && len(as.Lhs) == 1 && len(as.Rhs) == 1 {
+			if _, isLit := as.Rhs[0].(*ast.FuncLit); isLit {
+				f.localFns[as.Lhs[0].(*ast.Ident).Name] = key + "_" + as.Lhs[0].(*ast.Ident).Name
+			}
+		}
+	}
+	fmt.Fprintf(sb, "/-- %s %s (%s) -/\n", filepath.Join(p.unit.pkgDir, filepath.Base(fset.Position(at.Pos()).Filename)), key, "translated")
 	fmt.Fprintf(sb, "def %s %s : %s :=\n", key, params, rt)
 	f.push()
-	body := f.stmts("  ", d.Body.List, func(ind string) string {
+	out := f.stmts("  ", body.List, func(ind string) string {
 		var vals []string
 		for _, n := range f.named {
 			vals = append(vals, f.v(n))
 		}
 		if len(vals) == 0 && sig.nResults > 0 {
-			trFail(d, "control reaches the end of %s without a return", key)
+			trFail(at, "control reaches the end of %s without a return", key)
 		}
-		return ind + f.retTuple(vals) + "\n"
+		return f.emitReturn(ind, vals)
 	})
-	sb.WriteString(pre + body + "\n")
+	sb.WriteString(pre + out + "\n")
+}
+
+// bodyOf: the body of a translated function or lifted closure
+func (p *trPkg) bodyOf(key string) *ast.BlockStmt {
+	if lit, ok := p.lits[key]; ok {
+		return lit.Body
+	}
+	return p.funcs[key].Body
+}
+
+// calleeKey: the key of the translated function a call expression invokes ("" if none); outer is the key of the
+// function the call stands in (for its closures)
+func (p *trPkg) calleeKey(outer string, call *ast.CallExpr) string {
+	switch fn := call.Fun.(type) {
+	case *ast.Ident:
+		if _, ok := p.sigs[outer+"_"+fn.Name]; ok {
+			return outer + "_" + fn.Name
+		}
+		if s, ok := p.sigs[fn.Name]; ok && s.recv == "" {
+			return fn.Name
+		}
+	case *ast.SelectorExpr:
+		if _, isIdent := fn.X.(*ast.Ident); isIdent {
+			if k := p.methodKey(fn.Sel.Name); k != "" {
+				return k
+			}
+		}
+	}
+	return ""
+}
+
+// computeCanPanic: a function can panic if it indexes or slices (other than the comma-ok form), loops without a
+// bound the translator can see, or calls a function that can (least fixpoint)
+func (p *trPkg) computeCanPanic() {
+	direct := func(key string) bool {
+		found := false
+		okForm := map[ast.Expr]bool{}
+		ast.Inspect(p.bodyOf(key), func(n ast.Node) bool {
+			switch v := n.(type) {
+			case *ast.FuncLit:
+				return false // judged on its own
+			case *ast.AssignStmt:
+				if len(v.Lhs) == 2 && len(v.Rhs) == 1 {
+					if ix, ok := v.Rhs[0].(*ast.IndexExpr); ok {
+						okForm[ix] = true
+					}
+				}
+			case *ast.IndexExpr:
+				if !okForm[v] {
+					found = true
+				}
+			case *ast.SliceExpr:
+				found = true
+			case *ast.ForStmt:
+				if v.Init == nil && v.Post == nil {
+					found = true // `for cond {…}`: runs on fuel
+				}
+			}
+			return true
+		})
+		return found
+	}
+	for _, key := range p.litOrder {
+		if direct(key) {
+			p.canPanic[key] = true
+		}
+	}
+	for changed := true; changed; {
+		changed = false
+		for _, key := range p.litOrder {
+			if p.canPanic[key] {
+				continue
+			}
+			ast.Inspect(p.bodyOf(key), func(n ast.Node) bool {
+				if _, isLit := n.(*ast.FuncLit); isLit {
+					return false
+				}
+				if call, ok := n.(*ast.CallExpr); ok {
+					if k := p.calleeKey(key, call); k != "" && p.canPanic[k] && !p.canPanic[key] {
+						p.canPanic[key] = true
+						changed = true
+					}
+				}
+				return true
+			})
+		}
+	}
+}
+
+// emitConst: a package-level string constant as a Lean definition
+func (p *trPkg) emitConst(sb *strings.Builder, name string) {
+	for _, f := range p.files {
+		for _, d := range f.Decls {
+			gd, ok := d.(*ast.GenDecl)
+			if !ok || gd.Tok != token.CONST {
+				continue
+			}
+			for _, sp := range gd.Specs {
+				vs := sp.(*ast.ValueSpec)
+				for i, n := range vs.Names {
+					if n.Name != name || i >= len(vs.Values) {
+						continue
+					}
+					c := eval(vs.Values[i], nil)
+					text, ok := constStr(c)
+					if !ok {
+						trFail(vs, "constant %s is not a string constant", name)
+					}
+					fmt.Fprintf(sb, "/-- %s const %s (translated) -/\ndef %s : GoString := %s\n\n", p.unit.pkgDir, name, leanIdent(name), leanBytesLit(text))
+					return
+				}
+			}
+		}
+	}
+	trFail(nil, "constant %s not found in %s", name, p.unit.pkgDir)
 }
 
 // emitVar: a package-level `var name = <composite literal of constants>` as a Lean definition
@@ -1560,9 +2177,53 @@ func translateUnit(u trUnit) (out string) {
 					s.nResults += len(fl.Names)
 				}
 			}
+			if d.Recv == nil && len(d.Type.Params.List) > 0 {
+				if st, ok := d.Type.Params.List[0].Type.(*ast.StarExpr); ok && len(d.Type.Params.List[0].Names) == 1 {
+					if id, ok := st.X.(*ast.Ident); ok && !contains(u.optPtr, id.Name) {
+						if _, isStruct := u.structs[id.Name]; isStruct {
+							s.ptrParam = d.Type.Params.List[0].Names[0].Name
+						}
+					}
+				}
+			}
 			p.sigs[key] = s
 		}
+		// closures `name := func(…) {…}` at the top level of a translated function become functions of their own
+		var order []string
+		for _, key := range u.funcs {
+			for _, st := range p.funcs[key].Body.List {
+				as, ok := st.(*ast.AssignStmt)
+				if !ok || as.Tok != token.DEFINE || len(as.Lhs) != 1 || len(as.Rhs) != 1 {
+					continue
+				}
+				lit, ok := as.Rhs[0].(*ast.FuncLit)
+				if !ok {
+					continue
+				}
+				lk := key + "_" + as.Lhs[0].(*ast.Ident).Name
+				ls := &trSig{}
+				if lit.Type.Results != nil {
+					for _, fl := range lit.Type.Results.List {
+						if len(fl.Names) == 0 {
+							ls.nResults++
+						}
+						ls.nResults += len(fl.Names)
+					}
+				}
+				p.sigs[lk] = ls
+				p.lits[lk] = lit
+				order = append(order, lk)
+			}
+			order = append(order, key)
+		}
+		p.litOrder = order
+		if u.panics {
+			p.computeCanPanic()
+		}
 		fmt.Fprintf(&sb, "namespace Dtail.Gen.%s\n\n", u.ns)
+		for _, c := range u.consts {
+			p.emitConst(&sb, c)
+		}
 		for _, en := range u.enums {
 			p.emitEnum(&sb, en)
 		}
@@ -1613,7 +2274,7 @@ func translateUnit(u trUnit) (out string) {
 		for _, v := range u.vars {
 			p.emitVar(&sb, v)
 		}
-		for _, key := range u.funcs {
+		for _, key := range p.litOrder {
 			p.emitFunc(&sb, key)
 		}
 		fmt.Fprintf(&sb, "end Dtail.Gen.%s\n\n", u.ns)
